@@ -414,6 +414,7 @@ class dir_archive(archive):
         return
     __setitem__.__doc__ = dict.__setitem__.__doc__
     def clear(self):
+        for _dir in self._lsdir(): self._rmtree(_dir) # entries vanish one at a time
         rmtree(self.__state__['id'], self=False, ignore_errors=True)
         return
     clear.__doc__ = dict.clear.__doc__
@@ -530,11 +531,23 @@ class dir_archive(archive):
 
     def _rmdir(self, key):
         "remove results subdirectory corresponding to given key"
-        rmtree(self._getdir(key), self=True, ignore_errors=True)
+        self._rmtree(self._getdir(key))
+        return
+    def _rmtree(self, path):
+        "remove a results subdirectory: move it out of sight first, so it is never listed half-removed"
+        _tmp = os.path.join(os.path.dirname(path), PREFIX+TEMP+'rm.'+os.path.basename(path))
+        try:
+            rmtree(_tmp, self=True, ignore_errors=True) # leftover of an interrupted removal
+            os.rename(path, _tmp)
+        except OSError:
+            _tmp = path
+        rmtree(_tmp, self=True, ignore_errors=True)
         return
     def _lsdir(self):
         "get a list of subdirectories in the root directory"
-        return walk(self.__state__['id'],patterns=PREFIX+'*',recurse=False,folders=True,files=False,links=False)
+        dirs = walk(self.__state__['id'],patterns=PREFIX+'*',recurse=False,folders=True,files=False,links=False)
+        # entries still being written (or removed) are not part of the archive
+        return [d for d in dirs if not os.path.basename(d).startswith(PREFIX+TEMP)]
     def _hasinput(self, root):
         "check if results subdirectory has stored input file"
         return bool(walk(root,patterns=self._args,recurse=False,folders=False,files=True,links=False))
